@@ -765,6 +765,125 @@ def run_raw(ctl: explorer.Ctl, cfg: Dict[str, Any]) -> Dict[str, Any]:
     return {"outcome": f"{name}: lines-for-the-string={body.count(b'\n') + 1 if body else 0} same-value={same}", "violations": viol}
 
 
+# ---------------------------------------------------------------------------
+# the inbound side is busy or has unfinished business while messages go out
+# ---------------------------------------------------------------------------
+RUN_IN = "vf.checks.c06:run_inbound_state"
+PENDING = [None, "kept", "receiver-closed", "answered", "left-over-from-an-earlier-connection"]
+
+
+def run_inbound_state(ctl: explorer.Ctl, cfg: Dict[str, Any]) -> Dict[str, Any]:
+    """backlog: the child has written that many lines which nobody reads (the 100-slot read stream fills up);
+    pending: a per-request stream (new_request_stream) is registered and not answered / answered / left over from an
+    earlier connection of the same client object.  The outbound oracle is the usual one."""
+    from chuk_mcp.transports.stdio.stdio_client import StdioClient
+
+    table = _items()
+    seq = [table[i] for i in cfg["seq"]]
+    backlog = cfg.get("backlog", 0)
+    pending = cfg.get("pending")
+    loop = new_loop(horizon=60)
+    q = seams.Quiescence(loop)
+    procs = [seams.FakeProcess(), seams.FakeProcess()]
+    info: Dict[str, Any] = {}
+    lines_in = b"".join((('{"jsonrpc":"2.0","method":"notifications/message","params":{"i":%d}}\n' % i) if i % 3 else
+                         ('{"jsonrpc":"2.0","id":"srv-%d","result":{"i":%d}}\n' % (i, i))).encode() for i in range(backlog))
+
+    async def main():
+        it = iter(procs)
+        with seams.patched_open_process(lambda cmd, kw: next(it)):
+            client = StdioClient(seams.stdio_params())
+            proc = procs[0]
+            if pending == "left-over-from-an-earlier-connection":
+                async with client:
+                    client.new_request_stream("p-7")         # never answered; the caller gave up
+                    await q.settle()
+                proc = procs[1]
+            info["proc"] = proc
+            async with client:
+                read, write = client.get_streams()
+                if pending in ("kept", "receiver-closed", "answered"):
+                    rs = client.new_request_stream("p-7")
+                    info["rs"] = rs
+                    if pending == "receiver-closed":
+                        rs.close()
+                if backlog:
+                    proc.stdout.feed(lines_in)
+                    await q.settle()
+                if pending == "answered":
+                    proc.stdout.feed(b'{"jsonrpc":"2.0","id":"p-7","result":{}}\n')
+                    await q.settle()
+                for (name, mk, exp) in seq:
+                    await write.send(mk())
+                    if cfg.get("mode") == "step":
+                        await q.settle()
+                await q.settle()
+                info["closed_before"] = proc.stdin.closed
+                info["before_close"] = bytes(proc.stdin.data)
+                await write.aclose()
+                await q.settle()
+                info["closed_after"] = proc.stdin.closed      # in a run without backlog / pending it is closed by now
+                info["data"] = bytes(proc.stdin.data)
+
+    status, val = loop.run_main(main())
+    errors = loop.collect_errors()
+    loop.abandon()
+    names = [t[0] for t in seq]
+    where = f"items={names} unread-inbound-lines={backlog} per-request-stream={pending} mode={cfg.get('mode')}"
+    tag: Dict[str, Any] = {"part": "inbound-state"}
+    if backlog:
+        tag["unread_inbound"] = "<100" if backlog < 100 else ">=100"
+    if pending:
+        tag["per_request_stream"] = pending
+    if status != "ok":
+        return {"outcome": status, "violations": [{"sig": {"class": "did-not-finish", **tag}, "msg": f"{where}: {status} {core.clean_repr(val)}"}]}
+    viol: List[dict] = []
+    data = info.get("data", b"")
+    lines = data.split(b"\n")
+    tail, lines = lines[-1], lines[:-1]
+    expected = [e for (_, _, e) in seq if e is not None]
+    decoded = []
+    for raw in lines:
+        try:
+            decoded.append(json.loads(raw.decode("utf-8")))
+        except Exception:
+            decoded.append({"__not_json__": True})
+    if tail != b"":
+        viol.append({"sig": {"class": "unterminated-line", **tag}, "msg": f"{where}: stdin does not end with a newline"})
+    if not (len(decoded) == len(expected) and all(strict_eq(a, b) for a, b in zip(decoded, expected))):
+        viol.append({"sig": {"class": "line-count" if len(decoded) != len(expected) else "content-changed", **tag,
+                             "has_unserialisable": any(e is None for (_, _, e) in seq)},
+                     "msg": f"{where}: {len(decoded)} lines on the child's stdin for {len(expected)} serialisable messages"})
+    if info.get("closed_before"):
+        viol.append({"sig": {"class": "stdin-closed-early", **tag}, "msg": f"{where}: stdin closed before the write stream was closed"})
+    if not info.get("closed_after"):
+        viol.append({"sig": {"class": "stdin-not-closed", **tag}, "msg": f"{where}: the write stream was closed but the child's stdin was not"})
+    if info.get("before_close") != data:
+        viol.append({"sig": {"class": "bytes-after-close", **tag}, "msg": f"{where}: bytes were written after the write stream was closed"})
+    if errors:
+        viol.append({"sig": {"class": "loop-error", **tag}, "msg": f"{errors[:2]}"})
+    return {"outcome": f"lines={len(lines)}/expected={len(expected)}/closed={info.get('closed_after')}", "cfg": cfg, "violations": viol}
+
+
+def inbound_state_configs(tier: str) -> List[Dict[str, Any]]:
+    table = _items()
+    ix = {t[0]: i for i, t in enumerate(table)}
+    valid = [ix["typed-request"], ix["dict-response"], ix["str-json-dumps"]]
+    bad = [i for i, t in enumerate(table) if t[2] is None]
+    seqs = [[v] for v in valid] + [[b, valid[0]] for b in bad] + [[valid[1], b, valid[0]] for b in bad] + [[b] for b in bad[:3]]
+    if tier != "quick":
+        seqs += [[b1, b2, valid[2]] for b1 in bad for b2 in bad]
+    out = []
+    for seq in seqs:
+        for mode in ("burst", "step"):
+            for backlog in (0, 50, 99, 100, 101, 150):
+                out.append({"seq": seq, "mode": mode, "backlog": backlog})
+            for pending in PENDING[1:]:
+                for backlog in (0, 101):
+                    out.append({"seq": seq, "mode": mode, "backlog": backlog, "pending": pending})
+    return out
+
+
 def _family(n: str) -> str:
     return n.split("-")[0]
 
@@ -825,6 +944,9 @@ def run(tier: str, only=None) -> core.Result:
     rcfgs = [{"item": i, "before": b, "mode": m} for i in range(len(_raw_items())) for b in (False, True) for m in ("burst", "step")]
     out = explorer.explore(RUN_RAW, rcfgs, fidelity=True)
     sched.absorb(res, "pre-serialised-strings-framed-pretty-odd-blanks", RUN_RAW, out, rcfgs)
+    icfgs = inbound_state_configs(tier)
+    out = explorer.explore(RUN_IN, icfgs, fidelity=True)
+    sched.absorb(res, "inbound-backlog-and-per-request-streams", RUN_IN, out, icfgs)
     ucfgs = unserialisable_run_configs(tier)
     out = explorer.explore(RUN, ucfgs, fidelity=True)
     sched.absorb(res, "runs-of-unserialisable-items", RUN, out, ucfgs)
@@ -851,7 +973,10 @@ def run(tier: str, only=None) -> core.Result:
         "forever} (virtual) x {burst, settle-after-each}; plus the child's stdout reaching end-of-file (child still alive) before "
         "any / between / after the messages of sequences of <= 2 (thorough 3) serialisable items; plus pre-serialised strings "
         "that are pre-framed (LF, CRLF), pretty-printed (spaces, tabs + CRLF) or carry runs of blanks, tabs, NBSP, U+3000, "
-        "U+2028/2029/0085 raw inside string values, alone and after a typed message; plus runs of k = 1.."
+        "U+2028/2029/0085 raw inside string values, alone and after a typed message; plus the inbound side's state while messages go out: 0 / 50 / 99 / 100 / 101 / 150 "
+        "inbound lines that nobody reads, and a per-request stream (new_request_stream) that is kept / whose receiver is "
+        "closed / that is answered / that is left over from an earlier connection of the same client object, x sequences of "
+        "valid and unserialisable items (request-shaped ones among them) x {burst, settle-after-each}; plus runs of k = 1.."
         f"{12 if tier == 'quick' else 40} unserialisable items of one kind (each of the kinds) or of the kinds in rotation, before / "
         "between / after valid messages; plus a pipe whose write raises (BrokenResourceError, OSError, RuntimeError) for k "
         "consecutive writes starting at the first or second message and works again afterwards; plus two connections alive "
@@ -873,6 +998,9 @@ def run(tier: str, only=None) -> core.Result:
         "doing); judged is that the bytes between the neighbouring messages are one JSON document with the same value, and "
         "that a string without line breaks stays one line",
         "the child's stdout ending is modelled as end-of-file on the scripted stdout while the process has not exited",
+        "inbound state: the unread inbound lines are notifications and responses written before the first outbound message; "
+        "the outbound side is judged at the instant after the write stream was closed and the loop went idle, as in a run "
+        "with a quiet child",
         "pipe trouble: a message whose write raised may be lost; required are: every other message once and in order, every "
         "message attempted, stdin closed by (and not before) the close of the write stream",
         "two connections: the healthy connection is judged at the instant its write stream was closed (as in a solo run), "
